@@ -219,13 +219,19 @@ def genstate(job, which, method):
     assume = [z3.And(v.t >= 1, v.t <= 10) for v in (npv, opv, n, o)]
     ufb = sn.uninterpreted('basestep')
     primed = {'xP', 'nP', 'oP'}
-    for kw in (dict(), dict(base_step=None, step_ratio=None, num_steps=None), dict(num_extrap=2, offset=1)):
+    for kw, (npc, opc) in itertools.product((dict(), dict(base_step=None, step_ratio=None, num_steps=None), dict(num_extrap=2, offset=1)),
+                                           ((1, 2), (2, 2), (3, 4), (6, 8))):
         def harness():
             with tr.traced(extra=[(sg, 'get_base_step', lambda scale: sn.Sym(ufb(sn.lift(scale) if sn.is_sym(scale) else sn.ratval(scale))))]):
                 g = cls(**kw)
-                g._state = sg._STATE(sn.scalar_arr(xp), 'forward' if method != 'forward' else 'complex', npv, opv)
+                # a real earlier use with symbolic arguments (whatever it remembers or caches), then an arbitrary remembered state
+                other = 'forward' if method != 'forward' else 'complex'
+                first = g.step_generator_function(xp, other, npc, opc)     # concrete earlier configuration, symbolic point
+                _ = (first.base_step, g.step_ratio, g.num_steps, g.base_step, g.scale, g.min_num_steps)
+                g._state = sg._STATE(sn.scalar_arr(xp), other, npv, opv)
                 s = g.step_generator_function(x, method, n, o)
-                return s.base_step, s.step_ratio, s.num_steps, s.offset
+                f = cls(**kw).step_generator_function(x, method, n, o)
+                return (s.base_step, s.step_ratio, s.num_steps, s.offset), (f.base_step, f.step_ratio, f.num_steps, f.offset)
         ex = sn.Explorer(harness, assumptions=assume, max_paths=3000, timeout_ms=20000)
         paths = list(ex.paths())
         job.absorb_explorer(ex)
@@ -235,14 +241,19 @@ def genstate(job, which, method):
                     raise p.exc
                 job.violation('raises', dict(key='C09:gen:raises:%s' % type(p.exc).__name__, kind='gen', exc=repr(p.exc)[:200]))
                 continue
+            got, fresh = p.result
             used = set()
-            for v in p.result:
+            for v in got:
                 used |= sn.value_vars(v)
-            dec = set()
-            for t in p.pc:
-                dec |= sn.term_vars(t)
-            bad = (used | dec) & primed
-            if not job.confirm('generator output and decisions independent of the remembered state', not bad):
+            bad = used & primed
+            for u, w in zip(got, fresh):
+                same = (u == w) if not (sn.is_sym(u) or sn.is_sym(w)) else None
+                if same is None:
+                    job.prove('reused generator field == fresh generator field', sn.lift(u) == sn.lift(w), p.conds(),
+                              dict(key='C09:gen:%s:reused-differs-from-fresh' % which, kind='gen', which=which, method=method))
+                elif not same:
+                    bad = bad | {'field %r != %r' % (u, w)}
+            if not job.confirm('generator output independent of earlier use', not bad):
                 job.violation('state-leak', dict(key='C09:gen:%s:remembered-state-leaks' % which, kind='gen', which=which, method=method,
                                                  leaked=sorted(bad), kw={k: str(v) for k, v in kw.items()}))
     job.twin('assumptions', assume)
@@ -508,12 +519,12 @@ def replay(cex):
     if kind == 'gen':
         cls = sg.MinStepGenerator if cex['which'] == 'min' else sg.MaxStepGenerator
         method = cex['method']
-        for (xp, npv, opv) in ((100.0, 7, 8), (0.0, 1, 1), (-3.0, 4, 2)):
-            for (x, n, o) in ((0.5, 1, 2), (2.0, 3, 4), (10.0, 2, 6)):
-                g = cls()
+        for (xp, npv, opv) in ((100.0, 7, 8), (0.0, 1, 1), (-3.0, 4, 2), (0.0, 1, 2), (1.0, 2, 2)):
+            for (x, n, o) in ((0.5, 1, 2), (2.0, 3, 4), (10.0, 2, 6), (0.0, 2, 2), (0.0, 1, 4)):
+                g = cls(num_extrap=3) if cls is sg.MinStepGenerator else cls()
                 list(g(xp, 'forward', npv, opv))
                 a = list(g(x, method, n, o))
-                b = list(cls()(x, method, n, o))
+                b = list((cls(num_extrap=3) if cls is sg.MinStepGenerator else cls())(x, method, n, o))
                 if len(a) != len(b) or any(np.any(np.asarray(u) != np.asarray(v)) for u, v in zip(a, b)):
                     return True, '%s reused after (x=%r, n=%d, order=%d) yields %r for (x=%r, %s, n=%d, order=%d); a fresh generator yields %r' % (
                         cls.__name__, xp, npv, opv, a[:3], x, method, n, o, b[:3])
